@@ -92,6 +92,22 @@ theorem counters_monotone (c : Cfg) (ops : List Op) (op : Op) :
   have ok := step_ok c (run c {} ops) op
   exact ⟨ok.up1, ok.up2, ok.up3, ok.dn1, ok.dn2, ok.dn3⟩
 
+/-- **A scrape never shows a byte counter lower than an earlier scrape did**, whatever happened in
+between (sessions and tunnels opening and closing, clients vanishing, timeouts): the one-step statement
+lifted to every continuation of every history -/
+theorem counters_never_decrease (c : Cfg) (ops more : List Op) :
+    let a := (after c ops).cells
+    let b := (after c (ops ++ more)).cells
+    a.up1 ≤ b.up1 ∧ a.up2 ≤ b.up2 ∧ a.up3 ≤ b.up3 ∧ a.dn1 ≤ b.dn1 ∧ a.dn2 ≤ b.dn2 ∧ a.dn3 ≤ b.dn3 := by
+  induction more generalizing ops with
+  | nil => simp
+  | cons op rest ih =>
+    have h1 := counters_monotone c ops op
+    have h2 := ih (ops ++ [op])
+    simp only [List.append_assoc, List.singleton_append] at h2
+    simp only at h1 h2 ⊢
+    omega
+
 /-- **bytes relayed client -> origin on a relaying tunnel are added, exactly, to the counter of
 that session's protocol** and to nothing else -/
 theorem up_adds_exactly (c : Cfg) (ops : List Op) (t n : Nat) (oe : Bool)
